@@ -123,6 +123,30 @@ def recovery_cases(seed, thorough=False):
         if len(fits) == 2:
             same = all(close(fits['model'][k], fits['reversed'][k], rel=1e-4, abs_=1e-8) for k in truth)
             yield {'name': f"user_bounds_key_order_irrelevant|{mname}", 'ok': bool(same), 'detail': f"{fits}"}
+    # desorption branch (points stored from high to low pressure) and unsorted input: same identities
+    pdn = numpy.linspace(0.95, 0.05, 19)
+    for label, pp in (('descending', pdn), ('shuffled', numpy.array(sorted(pdn, key=lambda v: (v * 7919) % 1)))):
+        ll = 9.0 * 3.0 * pp / (1 + 3.0 * pp) * (1 + 0.01 * numpy.sin(40 * pp))
+        fits = {}
+        for mname in ('Henry', 'Langmuir', 'Freundlich'):
+            try:
+                mi = pgm.model_iso(_iso(pp, ll, branch='des' if label == 'descending' else 'ads'), model=mname, branch='des' if label == 'descending' else 'ads')
+            except CalculationError:
+                continue
+            fits[mname] = mi
+            pred = numpy.asarray(mi.loading_at(pp), dtype=float)
+            want = float(numpy.sqrt(numpy.mean((pred - ll) ** 2)) / (max(ll) - min(ll)))
+            yield {'name': f"rmse_identity|{label}_data|{mname}", 'ok': close(mi.model.rmse, want, rel=1e-6, abs_=1e-12), 'detail': f"{mi.model.rmse} vs {want}"}
+            rng_ok = close(mi.model.pressure_range[0], min(pp)) and close(mi.model.pressure_range[1], max(pp)) and close(mi.model.loading_range[0], min(ll)) and close(mi.model.loading_range[1], max(ll))
+            yield {'name': f"stored_ranges_are_min_max|{label}_data|{mname}", 'ok': bool(rng_ok), 'detail': f"{mi.model.pressure_range} {mi.model.loading_range}"}
+        if len(fits) >= 2:
+            try:
+                best = pgm.model_iso(_iso(pp, ll, branch='des' if label == 'descending' else 'ads'), model=list(fits), branch='des' if label == 'descending' else 'ads')
+                actual = {k: float(numpy.sqrt(numpy.mean((numpy.asarray(v.loading_at(pp), dtype=float) - ll) ** 2))) for k, v in fits.items()}
+                ok = actual[best.model.name] <= min(actual.values()) * (1 + 1e-6)
+                yield {'name': f"best_of_list_has_smallest_actual_deviation|{label}_data", 'ok': bool(ok), 'detail': f"returned {best.model.name}; deviations {actual}"}
+            except CalculationError:
+                pass
     # only the requested branch is used
     p2 = numpy.concatenate([p, p[::-1][1:]])
     l2 = numpy.concatenate([l, (l * 1.3)[::-1][1:]])
@@ -154,3 +178,9 @@ def _fit(spec, model):
 def _guess(spec, model):
     bad = [r for r in recovery_cases(0) if not r['ok'] and r['name'].startswith('best_of_list')]
     return {'confirmed': bool(bad), 'observed': [(b['name'], b['detail']) for b in bad[:3]]}
+
+
+@replayer('c12.ranges')
+def _ranges(spec, model):
+    bad = [r for r in recovery_cases(0) if not r['ok'] and ('_data' in r['name'])]
+    return {'confirmed': bool(bad), 'observed': [(b['name'], b['detail']) for b in bad[:3]], 'expected': 'ranges (min, max); reported error = actual normalised deviation'}
